@@ -591,3 +591,63 @@ def r01h(ctx):
     ctx.ok("function arguments by name", "", f"{nf} named arguments of package functions / methods bound to their own slot")
     ctx.floor("named constructor arguments", n, 900)
     ctx.floor("named function arguments", nf, 700)
+
+
+R01I_METHODS = ("_simplify_up", "_simplify_down", "_lower", "_divisions", "_meta", "_layer", "_task", "_filtered_task", "_tune_up", "_tune_down", "npartitions", "_filter_passthrough_available", "_npartitions", "_kwargs", "kwargs")
+
+
+@rule(
+    "R01i",
+    ["C01", "C03", "C04"],
+    """INHERITED RULES ONLY READ WHAT THE HEIR HAS: a rewrite / lowering / metadata method inherited from an ancestor A reads
+    `self.p` for parameters p of A. A subclass that declares a different parameter list (MergeAsof vs Merge, StackPartition vs
+    Concat) must still answer every such read - p is one of its own parameters or a class attribute / property - unless the
+    read sits behind a `type(self) == A` test. Otherwise the optimizer raises AttributeError for that class as soon as the
+    inherited rule fires (a filter or projection above it), i.e. the optimized query fails where the plain one works.""",
+)
+def r01i(ctx):
+    model = ctx.model
+    core = model.core_expr
+    n = 0
+    seen = set()
+    for K in model.expr_classes():
+        try:
+            kp = set(model.parameters(K))
+        except AnalysisError:
+            continue
+        for name in R01I_METHODS:
+            mem = K.provider(name)
+            if mem is None or mem.cls is K or mem.cls is core or not isinstance(mem.node, (ast.FunctionDef, ast.AsyncFunctionDef)):
+                continue
+            A = mem.cls
+            try:
+                ap = set(model.parameters(A))
+            except AnalysisError:
+                continue
+            if ap <= kp:
+                continue
+            for node in iter_body_nodes(mem.node):
+                if not (isinstance(node, ast.Attribute) and isinstance(node.value, ast.Name) and node.value.id == "self" and isinstance(node.ctx, ast.Load)):
+                    continue
+                a = node.attr
+                if a not in ap:
+                    continue
+                n += 1
+                if a in kp or K.provider(a) is not None:
+                    continue
+                key = (K.qual, A.qual, name, a)
+                if key in seen:
+                    continue
+                seen.add(key)
+                pt = flow.point_of(mem.node, node)
+                own_only = pt is not None and any(
+                    ((not pol) and unparse(t) in (f"type(self) != {A.name}", f"type(self) is not {A.name}")) or (pol and unparse(t) in (f"type(self) == {A.name}", f"type(self) is {A.name}"))
+                    for t, pol in flow.facts(pt)
+                )
+                cid = f"{K.qual}<-{A.qual}.{name}:self.{a}"
+                if own_only:
+                    ctx.ok(cid, A.module.loc(node), f"only reached for {A.name} itself")
+                else:
+                    ctx.bad(cid, A.module.loc(node), f"{K.qual} inherits {A.qual}.{name}, which reads `self.{a}` - a parameter of {A.name} that {K.name} (parameters {sorted(kp)[:8]}...) neither declares nor defines: the rule raises AttributeError for this class when it fires")
+    ctx.ok("reads of ancestor parameters in inherited methods", "", f"{n} reads examined")
+    ctx.floor("reads of ancestor parameters in inherited methods", n, 20)
